@@ -358,7 +358,7 @@ func TestC05Free(t *testing.T) {
 			em.Marker("end", round)
 		}
 	}
-	if !want(0) {
+	if !wantHistory(0) {
 		return
 	}
 	em.Marker("begin", 0)
@@ -482,14 +482,10 @@ func TestC05Free(t *testing.T) {
 	ids := append([]int64(nil), firstIDs...)
 	idMu.Unlock()
 	sort.Slice(ids, func(a, b int) bool { return ids[a] < ids[b] })
-	idTerms := make([]string, len(ids))
-	for i, v := range ids {
-		idTerms[i] = fmt.Sprint(v)
-	}
 	ncalls := (total/G)*G - int(failed.Load()) // the calls whose write failed put nothing on the wire
-	em.Emit(Rec{Idx: 0, Kind: "c05-free", Desc: map[string]any{"goroutines": G, "calls": ncalls, "streams": nstream, "pairs": len(pairs), "ids": len(ids)},
-		Tags: []string{fmt.Sprintf("calls=%d", ncalls), "goroutines=64"},
-		Coq:  fmt.Sprintf("C05Free %d %s %s", ncalls, coqList(idTerms), coqList(pairs))})
+	// one connection, one history; emitted as closed records of <= 2000 ids / pairs (see emitFree)
+	emitFree(em, 0, "c05-free", map[string]any{"goroutines": G, "calls": ncalls, "streams": nstream, "pairs": len(pairs), "ids": len(ids)},
+		[]string{fmt.Sprintf("calls=%d", ncalls), "goroutines=64"}, ncalls, ids, pairs)
 	em.Marker("end", 0)
 }
 
@@ -738,18 +734,21 @@ func TestC13(t *testing.T) {
 		}
 	}
 	if thorough() {
-		// length 3: every sequence addressed to the two calls, for EVERY kind set
+		// length 3: EVERY sequence addressed to the two calls (36^3 = 46656), each for ONE kind set chosen by the sequence and
+		// the seed (seeds s, s+1, s+2 together give every sequence x every kind set; all three in one run took 28 min)
 		for a := 0; a < 2*nShapes; a++ {
 			for b := 0; b < 2*nShapes; b++ {
 				for c := 0; c < 2*nShapes; c++ {
-					for ki, kinds := range kindSets {
-						run(kinds, [][2]int{{a / nShapes, a % nShapes}, {b / nShapes, b % nShapes}, {c / nShapes, c % nShapes}}, []string{kn[ki], "exhaustive"})
+					ki := int((int64(a*31+b*17+c*7) + *flagSeed) % 3)
+					if ki < 0 {
+						ki += 3
 					}
+					run(kindSets[ki], [][2]int{{a / nShapes, a % nShapes}, {b / nShapes, b % nShapes}, {c / nShapes, c % nShapes}}, []string{kn[ki], "exhaustive-len3"})
 				}
 			}
 		}
 		// length 4: sampled by the seed
-		for i := 0; i < 8000; i++ {
+		for i := 0; i < 5000; i++ {
 			ki := r.Intn(3)
 			var seq [][2]int
 			for j := 0; j < 4; j++ {
